@@ -415,7 +415,7 @@ impl C16 {
         hist.extend_from_slice(suffix);
         let case = json!({"kind":"crash","prefix":prefix.iter().map(|o| o.to_json()).collect::<Vec<_>>(),"suffix":suffix.iter().map(|o| o.to_json()).collect::<Vec<_>>(),"cfg":{"cache":cfg.cache,"flush_ms":cfg.flush_ms,"mode":cfg.mode,"compression":cfg.compression},"k":k});
         let path = scratch_dir("c16x");
-        let exe = std::env::current_exe().map_err(|e| e.to_string())?;
+        let exe = crate::explore::self_exe()?;
         let arg = json!({"path": path.to_str().unwrap(), "case": case}).to_string();
         let st = std::process::Command::new(exe).args(["--worker", "crash", &arg]).stdout(std::process::Stdio::null()).stderr(std::process::Stdio::null()).status().map_err(|e| e.to_string())?;
         let mut m = Model { tree: IdealTree::new(DEPTH), meta: vec![] };
